@@ -167,6 +167,7 @@ def progress(rep, F, where, p):
 
 
 def run_config(ctx, rep, cfg, F):
+    C.check_primitives(rep, F, "R20.4", ("get_mut", "index"))
     sets = gather(ctx, F)
     entered = set()
     n_paths = n_iter = n_cb = 0
